@@ -2,7 +2,7 @@
    Every judge returns booleans: the specification checked on the implementation's observable
    output, the specification checked on the ideal model, and `implementation = model c` for the
    candidate vectors c = claimed, claimed with one flag off, ideal. *)
-From TL Require Import Lib.Base Model.OutputTypes Gen.OutputGen Model.Output.
+From TL Require Import Lib.Base Model.OutputTypes Gen.OutputGen Model.Output Model.OutputBytes.
 From Coq Require Import ZArith.
 Local Open Scope Z_scope.
 Local Open Scope string_scope.
@@ -169,3 +169,41 @@ Definition judge_utf8_valid (cases : list (string * bool)) : list bool :=
 Definition judge_commands (cmds : list string) : list bool :=
   map (fun c => match assoc c cli_exit_table with Some _ => true | None => false end) cmds
   ++ [(List.length cmds =? List.length cli_exit_table)%nat].
+
+(* ---------- byte level: what click.echo(json.dumps(doc, indent=K)) wrote for a document, against Model/OutputBytes.v ----------
+   [ the model's serialisation of the document is the observed stdout, byte for byte;
+     the specification's reader of the JSON grammar accepts the observed stdout and reads the same document as Python's json.loads;
+     the observed stdout is ASCII / well-formed UTF-8 ] *)
+Definition judge_bytes (doc : json) (out : string) : list bool :=
+  [ String.eqb (stdout_of doc) out;
+    match loads out with Some j => json_eqb j doc | None => false end;
+    ascii_bytes out && utf8_valid out ].
+(* json.dumps of single strings (arbitrary bytes under surrogateescape): the escaper against CPython, and the reader on its output *)
+Definition judge_jstr (cases : list (string * string)) : list bool :=
+  flat_map (fun p => [ String.eqb (json_quote (fst p)) (snd p);
+                       match snd p with
+                       | String _ r => match read_str (S (String.length r)) r with
+                                       | Some (x, EmptyString) => String.eqb x (fst p)
+                                       | _ => false
+                                       end
+                       | EmptyString => false
+                       end ]) cases.
+(* the reader against Python's json.loads on texts the model did not write (other layouts, corrupted texts):
+   expected = Some document / None when Python rejects the text; a JSON text must be well-formed UTF-8 *)
+Definition judge_loads (cases : list (string * option json)) : list bool :=
+  map (fun p => match (if utf8_valid (fst p) then loads (fst p) else None), snd p with
+                | Some j, Some e => json_eqb j e
+                | None, None => true
+                | _, _ => false
+                end) cases.
+
+(* stdout given line by line (every line of the list is followed by a newline) *)
+Fixpoint unlines (l : list string) : string :=
+  match l with [] => EmptyString | x :: r => (x ++ String nl (unlines r))%string end.
+(* unit / CLI level with the raw stdout of the JSON and SARIF renderings: the byte-level verdicts are appended *)
+Definition judge_unit_b (q : oquirks) (version : string) (srcs : list vsrc) (impl_vs : list viol)
+           (ij isf : json) (it : string) (outj outs : string) : list bool :=
+  judge_unit q version srcs impl_vs ij isf it ++ judge_bytes ij outj ++ judge_bytes isf outs.
+Definition judge_cli_b (q : oquirks) (version cmd : string) (srcs : list vsrc) (ij isf : json) (it : string) (ej es et : Z)
+           (outj outs : string) : list bool :=
+  judge_cli q version cmd srcs ij isf it ej es et ++ judge_bytes ij outj ++ judge_bytes isf outs.
